@@ -13,6 +13,14 @@ ASSUMPTIONS = ["flattened twin: entry jobs of the nested scheduler inherit its r
                "all its jobs; presence of a start may differ between the twins only in the very instant of an abort"]
 
 
+def _whose(run, exc):
+    """name of the job whose own exception object this is (or the exception's type)"""
+    for j in run.jobs():
+        if j.exc is exc:
+            return j.name
+    return type(exc).__name__
+
+
 def flat_twin(name, prof, templates):
     def fn(api):
         tname = templates[api.choice("template", len(templates))]
@@ -24,7 +32,7 @@ def flat_twin(name, prof, templates):
         extra = {"flat": rf.dump()}
         if rn.outcome[0] != rf.outcome[0] or (rn.outcome[0] == "ret" and rn.outcome[1] != rf.outcome[1]):
             O.fail(api, "C10: nested tree gives %r, flattened graph %r" % (rn.outcome, rf.outcome), rn, extra)
-        if rn.outcome[0] == "exc" and rn.outcome[1].args != rf.outcome[1].args:
+        if rn.outcome[0] == "exc" and _whose(rn, rn.outcome[1]) != _whose(rf, rf.outcome[1]):
             O.fail(api, "C10: nested tree raises %r, flattened graph %r" % (rn.outcome[1], rf.outcome[1]), rn, extra)
         # instant of the abort, if any (for the same-instant tolerance)
         t_abort = None
@@ -57,8 +65,8 @@ def harnesses(tier):
     if tier == "quick":
         return [
             scenario_harness("nested-as-one-job", Profile(
-                templates=("N12", "N21"), raises="free", crit_job="free", crit_sched="free", perm="id", top="sched",
-                top_crit="free"), o, required_notes=req),
+                templates=("N12", "N21", "E3"), raises="free", crit_job="free", crit_sched="free", perm="id",
+                top="sched", top_crit="free"), o + [O.c01_requirements], required_notes=req),
             scenario_harness("nested-own-window-timeout", Profile(
                 templates=("N12",), window="free", timeout="free", perm="id", crit_job=False, crit_sched="free"),
                 o + [O.c11_clean_exit]),
